@@ -192,6 +192,9 @@ def cfg_list():
     for kappa, theta, sigma, v0, dt, T in [(1.0, 0.04, 0.2, 0.04, 1 / 250, 21), (2.0, 0.09, 0.3, 0.02, 1 / 52, 27), (1.0, 0.04, 0.40, 0.02, 0.25, 9), (1.0, 0.04, 0.44, 0.02, 0.25, 9),
                                            (1.0, 0.04, 0.47, 0.02, 0.25, 9), (1.0, 0.04, 0.50, 0.02, 0.25, 9), (1.0, 0.04, 0.6, 0.02, 0.25, 9), (0.5, 0.02, 1.0, 0.01, 1 / 12, 13), (3.0, 0.05, 0.8, 0.1, 1 / 52, 27), (0.3, 0.04, 1.5, 0.04, 0.1, 11)]:
         C.append(("cir", dict(kappa=kappa, theta=theta, sigma=sigma, v0=v0, dt=dt, T=T)))
+    C.append(("cir", dict(kappa=1.5, theta=0.05, sigma=0.3, v0=0.05, dt=1 / 52, T=27, default_init=True)))
+    C.append(("vasicek", dict(kappa=1.5, theta=0.05, sigma=0.03, r0=0.05, dt=1 / 52, T=27, default_init=True)))
+    C.append(("heston", dict(kappa=1.5, theta=0.05, sigma=0.3, rho=-0.6, v0=0.05, s0=1.0, dt=1 / 250, T=21, default_init=True)))
     for kappa, theta, sigma, r0, dt, T in [(2.0, 0.03, 0.05, 0.1, 0.02, 51), (0.5, 0.04, 0.02, 0.0, 1 / 12, 25), (1.0, -0.01, 0.04, -0.01, 1 / 52, 27), (3.0, 0.05, 0.1, 0.01, 1 / 250, 41)]:
         C.append(("vasicek", dict(kappa=kappa, theta=theta, sigma=sigma, r0=r0, dt=dt, T=T)))
     for kappa, theta, sigma, rho, v0, s0, dt, T in [(1.0, 0.04, 0.2, -0.7, 0.04, 1.0, 1 / 250, 21), (2.0, 0.09, 0.5, 0.5, 0.03, 2.0, 1 / 52, 27), (1.5, 0.04, 0.8, -0.9, 0.06, 0.5, 1 / 250, 31)]:
@@ -257,11 +260,12 @@ def build(model, c, via, dtype):
         ka, th, sg = c["kappa"], c["theta"], c["sigma"]
         x0 = c["v0"] if model == "cir" else c["r0"]
         gen = ST.generate_cir if model == "cir" else ST.generate_vasicek
+        ini = None if c.get("default_init") else (x0,)  # default start: the documented initial state theta
         if via == "generator":
-            draw = lambda b: {"x": gen(b, T, init_state=(x0,), kappa=ka, theta=th, sigma=sg, dt=dt, dtype=dtype)}  # noqa: E731
+            draw = lambda b: {"x": gen(b, T, init_state=ini, kappa=ka, theta=th, sigma=sg, dt=dt, dtype=dtype)}  # noqa: E731
         else:
             inst = (CIRRate if model == "cir" else VasicekRate)(kappa=ka, theta=th, sigma=sg, dt=dt, dtype=dtype)
-            draw = lambda b: (inst.simulate(b, (T - 1) * dt, init_state=(x0,)), {"x": inst.spot})[1]  # noqa: E731
+            draw = lambda b: (inst.simulate(b, (T - 1) * dt, init_state=ini), {"x": inst.spot})[1]  # noqa: E731
         mean = lambda t: th + (x0 - th) * np.exp(-ka * t)  # noqa: E731
         if model == "cir":
             var = lambda t: x0 * sg**2 / ka * (np.exp(-ka * t) - np.exp(-2 * ka * t)) + th * sg**2 / (2 * ka) * (1 - np.exp(-ka * t)) ** 2  # noqa: E731
@@ -270,13 +274,14 @@ def build(model, c, via, dtype):
         checks += [("x", "id", "mean", mean, None, f"E[X_t] = theta + (x0-theta) exp(-kappa t) ({model})"), ("x", "id", "var", var, None, f"Var[X_t] closed form ({model})")]
     elif model == "heston":
         ka, th, sg, rho, v0, s0 = c["kappa"], c["theta"], c["sigma"], c["rho"], c["v0"], c["s0"]
+        hini = None if c.get("default_init") else (s0, v0)
         if via == "generator":
             def draw(b):
-                o = ST.generate_heston(b, T, init_state=(s0, v0), kappa=ka, theta=th, sigma=sg, rho=rho, dt=dt, dtype=dtype)
+                o = ST.generate_heston(b, T, init_state=hini, kappa=ka, theta=th, sigma=sg, rho=rho, dt=dt, dtype=dtype)
                 return {"x": o.spot, "v": o.variance}
         else:
             inst = HestonStock(kappa=ka, theta=th, sigma=sg, rho=rho, dt=dt, dtype=dtype)
-            draw = lambda b: (inst.simulate(b, (T - 1) * dt, init_state=(s0, v0)), {"x": inst.spot, "v": inst.variance})[1]  # noqa: E731
+            draw = lambda b: (inst.simulate(b, (T - 1) * dt, init_state=hini), {"x": inst.spot, "v": inst.variance})[1]  # noqa: E731
         checks += [("v", "id", "mean", lambda t: th + (v0 - th) * np.exp(-ka * t), None, "E[V_t] (Heston variance)"),
                    ("v", "id", "var", lambda t: v0 * sg**2 / ka * (np.exp(-ka * t) - np.exp(-2 * ka * t)) + th * sg**2 / (2 * ka) * (1 - np.exp(-ka * t)) ** 2, None,
                     "Var[V_t] (Heston variance)"),
@@ -349,7 +354,7 @@ def drv_law(ctx, k, rng):
     # call history must not matter: the same generator is first called with perturbed arguments (same shape) in this process, so that
     # anything cached across calls under an incomplete key (e.g. without dt) would be stale for the judged configuration
     for key, fac in (("dt", 2.0), ("dt", 0.5), ("sigma", 1.5), ("kappa", 2.0), ("theta", 1.5), ("eta", 0.5), ("xi", 2.0), ("lam", 0.5)):
-        if key in c and isinstance(c[key], float) and c[key] > 0:
+        if key in c and isinstance(c[key], float) and c[key] > 0 and not c.get("default_init"):
             c2 = dict(c)
             c2[key] = c[key] * fac
             try:
